@@ -40,6 +40,7 @@ from .onion import FilesystemAuthenticatedOnionService
 from .onion import EphemeralAuthenticatedOnionService
 from .onion import AuthStealth  # , AuthBasic
 from .torconfig import _endpoint_from_socksport_line
+from .torcontrolprotocol import DEFAULT_VALUE
 from .util import SingleObserver, _Version
 
 
@@ -990,7 +991,8 @@ def _create_socks_endpoint(reactor, control_protocol, socks_config=None):
         # the __*Port things...
         if socks_ports == ['DEFAULT']:
             default = yield control_protocol.get_conf_single('__SocksPort')
-            socks_ports = [default]
+            # a keyword-only answer means Tor reports no default line either
+            socks_ports = [] if default == DEFAULT_VALUE else [default]
     else:
         # return from get_conf was an empty dict; we want a list
         socks_ports = []
